@@ -115,6 +115,12 @@ class WorkerState:
                     ok = True
                 except TypeError:
                     ok = False
+                if ok and op[1] in ("add", "radd", "list", "radd_list", "mul", "rmul", "div", "mul_ones_list", "add_zeros", "radd_zeros", "sub"):
+                    # an accepted array operand acts element by element on the contents
+                    want = {"add": [2, 3], "radd": [2, 3], "list": [2, 3], "radd_list": [2, 3], "mul": [1, 2], "rmul": [1, 2], "div": [1, 2],
+                            "mul_ones_list": [1, 2], "add_zeros": [1, 2], "radd_zeros": [1, 2], "sub": [1, 2]}[op[1]]
+                    got = [float(x) for x in np.asarray(r.frequencies)]
+                    self._require(got == [float(x) for x in want], "array_arithmetic_value", f"worker {self.wid} step {self.pc - 1}: h {op[1]} array gave {got}, expected {want}")
                 self._require(ok == bool(self.value), "array_operand_" + ("accepted" if ok else "refused"),
                               f"worker {self.wid} step {self.pc - 1}: h {op[1]} array {'accepted' if ok else 'refused'} while free arithmetics is {self.value!r}")
             elif name == "try_negative":
